@@ -5,6 +5,8 @@
     P <mode> <specs> <arg>*                       one vector against `parse_arguments`
     S <cmd> <mode> <specs> <setup> <probe> <arg>* ( | <arg>* )*   equivalent spellings of one invocation
     M <cmd> <mode> <specs> <setup> <probe> <arg>*                 a malformed invocation
+    B <portable> <cmd> <setup> <probe> <arg>* ( | <arg>* )*   shell-level spellings (no model: observation = their number)
+    E <portable> <cmd> <setup> <probe> <arg>*     shell-level rejection (no model)
     G <optstring> <arg>*                          `while getopts optstring v arg…` run to the end
     T <portable> <names> <arg>*                   set/syntax.rs `parse`
     H <names> <argv0> <arg>*                      startup/args.rs `parse` (the shell's own command line)
@@ -284,6 +286,8 @@ def runLine (line : String) : String :=
     (match p.toList.head? >>= parseBit, st.toInt?, parseNames nm, args.mapM decChars with
      | some p, some st, some nm, some args => specCompare p (showKill (Bespoke.killParse nm p st args)) (showKill (Bespoke.killParse nm p st (Bespoke.separateKill nm args)))
      | _, _, _, _ => "bad-case\t-")
+  | "B" :: _p :: _cmd :: _setup :: _probe :: rest => s!"n={(splitBar rest).length}\t-"
+  | "E" :: _p :: _cmd :: _setup :: _probe :: _ => "n=1\t-"
   | "G" :: sp :: args =>
     (match decChars sp, args.mapM decChars with
      | some spec, some args => runGetopts spec args
